@@ -408,6 +408,15 @@ func (in *Interp) jsonDecode(data value, into value) value {
 	if !ok || p == nil {
 		return in.opaqueError("json: Unmarshal(non-pointer)", nil)
 	}
+	if _, isIface := under(deref(dst.t)).(*types.Interface); isIface {
+		// Unmarshal into an interface holding a non-nil pointer decodes into the pointee
+		if cur, ok := (*p).(iface); ok && cur.t != nil {
+			if _, isPtr := under(cur.t).(*types.Pointer); isPtr {
+				return in.jsonDecode(data, cur)
+			}
+		}
+		return in.opaqueError("json: Unmarshal into bare interface is outside the codec-token model", nil)
+	}
 	sv := src
 	if si, ok := src.(iface); ok {
 		sv = si.v
@@ -733,11 +742,33 @@ func init() {
 		s, _ := concreteString(in.fmtOpaque(args[0], args[1]))
 		return in.opaqueError(s, wrapped)
 	})
-	for _, n := range []string{"fmt.Fprintf", "fmt.Fprint", "fmt.Fprintln", "fmt.Printf", "fmt.Println", "fmt.Print"} {
+	for _, n := range []string{"fmt.Printf", "fmt.Println", "fmt.Print"} {
 		reg(n, func(fr *frame, fn *ssa.Function, args []value) value {
 			return tuple{fr.in.ts.BV(64, 0), iface{}}
 		})
 	}
+	fprint := func(hasFormat bool) intrinsicFn {
+		return func(fr *frame, fn *ssa.Function, args []value) value {
+			in := fr.in
+			w, _ := args[0].(iface)
+			var txt value
+			if hasFormat {
+				txt = in.fmtOpaque(args[1], args[2])
+			} else {
+				txt = in.fmtOpaque("", args[1])
+			}
+			s, _ := concreteString(txt)
+			if w.t == nil {
+				in.rtPanic("invalid memory address or nil pointer dereference (nil io.Writer)")
+			}
+			wm := in.lookupMethodByName(w.t, "Write")
+			res := in.callValue(fr, wm, []value{w.v, in.byteSlice([]byte(s + "\n"))}, nil).(tuple)
+			return tuple{res[0], res[1]}
+		}
+	}
+	reg("fmt.Fprintf", fprint(true))
+	reg("fmt.Fprint", fprint(false))
+	reg("fmt.Fprintln", fprint(false))
 	reg("errors.Is", func(fr *frame, fn *ssa.Function, args []value) value {
 		return fr.in.errorsIs(fr, args[0].(iface), args[1].(iface))
 	})
@@ -778,6 +809,9 @@ func (in *Interp) showArg(a value) string {
 	if !ok {
 		return "?"
 	}
+	if ai.t == nil {
+		return "<nil>"
+	}
 	switch v := ai.v.(type) {
 	case *Term:
 		if v.IsConst() {
@@ -794,6 +828,30 @@ func (in *Interp) showArg(a value) string {
 			s, _ := v[0].(string)
 			return s
 		}
+	}
+	if in.isErrorType(ai.t) && in.curFrame != nil && in.fmtDepth < 3 {
+		// render errors through their Error method when that yields concrete text
+		in.fmtDepth++
+		defer func() { in.fmtDepth-- }()
+		var out string
+		func() {
+			defer func() {
+				if r := recover(); r != nil {
+					if _, isEnd := r.(pathEnd); isEnd {
+						panic(r)
+					}
+					out = "‹" + ai.t.String() + "›"
+				}
+			}()
+			m := in.lookupMethodByName(ai.t, "Error")
+			res := in.callValue(in.curFrame, m, []value{ai.v}, nil)
+			if s, ok := concreteString(res); ok {
+				out = s
+			} else {
+				out = "‹" + ai.t.String() + "›"
+			}
+		}()
+		return out
 	}
 	return "‹" + fmt.Sprint(ai.t) + "›"
 }
